@@ -7,13 +7,18 @@ import YV.Spec.XCompile
 namespace YV.XP
 open YV YV.X YV.XL YV.XC
 
-/-- an expression as written: numbers, literals, unary minus, the thirteen binary operators, parentheses -/
+/-- an expression as written: numbers, literals, unary minus, the thirteen binary operators, parentheses, and
+    function calls with up to three argument expressions -/
 inductive PE where
   | num (x : SF)
   | lit (s : List Rune)
   | paren (e : PE)
   | neg (e : PE)
   | bin (op : BinOp) (a b : PE)
+  | call0 (fn : Fn)
+  | call1 (fn : Fn) (a : PE)
+  | call2 (fn : Fn) (a b : PE)
+  | call3 (fn : Fn) (a b c : PE)
   deriving Repr
 
 def opTok : BinOp → Tok
@@ -30,6 +35,11 @@ def PE.toks : PE → List Tok
   | .paren e => .ch (chr '(') :: (e.toks ++ [.ch (chr ')')])
   | .neg e => .ch (chr '-') :: e.toks
   | .bin op a b => a.toks ++ opTok op :: b.toks
+  | .call0 fn => [.func fn, .ch (chr '('), .ch (chr ')')]
+  | .call1 fn a => .func fn :: .ch (chr '(') :: (a.toks ++ [.ch (chr ')')])
+  | .call2 fn a b => .func fn :: .ch (chr '(') :: (a.toks ++ .ch (chr ',') :: (b.toks ++ [.ch (chr ')')]))
+  | .call3 fn a b c =>
+    .func fn :: .ch (chr '(') :: (a.toks ++ .ch (chr ',') :: (b.toks ++ .ch (chr ',') :: (c.toks ++ [.ch (chr ')')])))
 
 /-- the tree's postfix code: parentheses leave no trace -/
 def PE.code : PE → List PI
@@ -38,6 +48,10 @@ def PE.code : PE → List PI
   | .paren e => e.code
   | .neg e => e.code ++ [.negate]
   | .bin op a b => a.code ++ b.code ++ [binPI op]
+  | .call0 fn => [.bltin fn]
+  | .call1 fn a => a.code ++ [.bltin fn]
+  | .call2 fn a b => a.code ++ b.code ++ [.bltin fn]
+  | .call3 fn a b c => a.code ++ b.code ++ c.code ++ [.bltin fn]
 
 /-- `e` can stand where an expression of binary level `lvl` (0 = or … 5 = multiplicative, 6 = unary) is
     expected without further parentheses: a left operand may be of the operator's own level
@@ -48,6 +62,10 @@ def PE.fits : Nat → PE → Prop
   | _, .paren e => e.fits 0
   | _, .neg e => e.fits 6
   | l, .bin op a b => l ≤ level op ∧ a.fits (level op) ∧ b.fits (level op + 1)
+  | _, .call0 fn => fn.sig.1.length = 0
+  | _, .call1 fn a => fn.sig.1.length = 1 ∧ a.fits 0
+  | _, .call2 fn a b => fn.sig.1.length = 2 ∧ a.fits 0 ∧ b.fits 0
+  | _, .call3 fn a b c => fn.sig.1.length = 3 ∧ a.fits 0 ∧ b.fits 0 ∧ c.fits 0
 
 def tk (s : PSt) : List Tok := s.toks.map (·.tok)
 def advN (n : Nat) (s : PSt) : PSt := { s with toks := s.toks.drop n, pos := s.pos + n }
@@ -94,6 +112,18 @@ theorem done_bin (op : BinOp) (a b : PE) (s : PSt) :
 
 theorem done_strict (e : PE) (s : PSt) : (done e s).strict = s.strict := rfl
 
+theorem done_call0 (fn : Fn) (s : PSt) : done (.call0 fn) s = emit (adv (adv (adv s))) (.bltin fn) := by
+  apply PSt.ext' <;> simp [done, advN, adv, emit, PE.toks, PE.code, List.drop_drop, Nat.add_assoc]
+theorem done_call1 (fn : Fn) (a : PE) (s : PSt) :
+    done (.call1 fn a) s = emit (adv (done a (adv (adv s)))) (.bltin fn) := by
+  apply PSt.ext' <;> simp [done, advN, adv, emit, PE.toks, PE.code, List.drop_drop, Nat.add_comm, Nat.add_assoc, Nat.add_left_comm] <;> omega
+theorem done_call2 (fn : Fn) (a b : PE) (s : PSt) :
+    done (.call2 fn a b) s = emit (adv (done b (adv (done a (adv (adv s)))))) (.bltin fn) := by
+  apply PSt.ext' <;> simp [done, advN, adv, emit, PE.toks, PE.code, List.drop_drop, Nat.add_comm, Nat.add_assoc, Nat.add_left_comm] <;> omega
+theorem done_call3 (fn : Fn) (a b c : PE) (s : PSt) :
+    done (.call3 fn a b c) s = emit (adv (done c (adv (done b (adv (done a (adv (adv s)))))))) (.bltin fn) := by
+  apply PSt.ext' <;> simp [done, advN, adv, emit, PE.toks, PE.code, List.drop_drop, Nat.add_comm, Nat.add_assoc, Nat.add_left_comm] <;> omega
+
 
 /-! ### the operator tokens -/
 
@@ -109,18 +139,23 @@ theorem stopAt_opTok (op : BinOp) : stopAt (level op + 1) (opTok op) := by
 theorem stopAt_mono (a b : Nat) (t : Tok) (h : a ≤ b) (hs : stopAt a t) : stopAt b t :=
   ⟨fun j hj => hs.1 j (by omega), hs.2⟩
 
-/-- the first token of an expression: a number, a literal, '(' or '-' -/
-def startTok (t : Tok) : Prop := (∃ x, t = .num x) ∨ (∃ l, t = .lit l) ∨ t = .ch (chr '(') ∨ t = .ch (chr '-')
+/-- the first token of an expression: a number, a literal, '(', '-' or a function name -/
+def startTok (t : Tok) : Prop :=
+  (∃ x, t = .num x) ∨ (∃ l, t = .lit l) ∨ t = .ch (chr '(') ∨ t = .ch (chr '-') ∨ (∃ fn, t = .func fn)
 
 theorem toks_start (e : PE) : ∃ t r, e.toks = t :: r ∧ startTok t := by
   induction e with
   | num x => exact ⟨_, _, rfl, .inl ⟨x, rfl⟩⟩
   | lit l => exact ⟨_, _, rfl, .inr (.inl ⟨l, rfl⟩)⟩
   | paren e _ => exact ⟨_, _, rfl, .inr (.inr (.inl rfl))⟩
-  | neg e _ => exact ⟨_, _, rfl, .inr (.inr (.inr rfl))⟩
+  | neg e _ => exact ⟨_, _, rfl, .inr (.inr (.inr (.inl rfl)))⟩
   | bin op a b iha _ =>
     obtain ⟨t, r, h, ht⟩ := iha
     exact ⟨t, r ++ opTok op :: b.toks, by simp [PE.toks, h], ht⟩
+  | call0 fn => exact ⟨_, _, rfl, .inr (.inr (.inr (.inr ⟨fn, rfl⟩)))⟩
+  | call1 fn a _ => exact ⟨_, _, rfl, .inr (.inr (.inr (.inr ⟨fn, rfl⟩)))⟩
+  | call2 fn a b _ _ => exact ⟨_, _, rfl, .inr (.inr (.inr (.inr ⟨fn, rfl⟩)))⟩
+  | call3 fn a b c _ _ _ => exact ⟨_, _, rfl, .inr (.inr (.inr (.inr ⟨fn, rfl⟩)))⟩
 
 /-! ### the three statements proved together -/
 
@@ -319,7 +354,7 @@ theorem U_paren (e : PE) (he : T e 0) : U (.paren e) := by
     obtain ⟨t, r, hr, hst'⟩ := toks_start e
     rw [peek_tk, htk, hr]
     simp only [List.cons_append, List.headD_cons]
-    rcases hst' with ⟨x, rfl⟩ | ⟨l, rfl⟩ | rfl | rfl <;> simp [chr]
+    rcases hst' with ⟨x, rfl⟩ | ⟨l, rfl⟩ | rfl | rfl | ⟨fn, rfl⟩ <;> simp [chr]
   have hin := he g' (adv s) (.ch (chr ')') :: rest) (by simp [B, PE.toks] at hg ⊢; omega) htk
     (stopAt_rparen 0) hst
   have hprim : pPrimary (g' + 1) s = .ok (done (.paren e) s) := by
@@ -330,6 +365,129 @@ theorem U_paren (e : PE) (he : T e 0) : U (.paren e) := by
     rfl
   have hd := peek_done (.paren e) s rest ht
   exact unary_of_primary (g' + 1) s _ (by rw [hp]; simp [chr]) (pPath_paren _ _ hp) hprim (by rw [hd]; exact hs)
+
+/-! ### function calls -/
+
+theorem stopAt_comma (lvl : Nat) : stopAt lvl (.ch (chr ',')) := by
+  refine ⟨fun j _ => ?_, by simp [chr], by simp [chr], by simp [chr], by simp⟩
+  rcases j with _ | _ | _ | _ | _ | _ | j <;> simp [binOpAt, chr]
+
+theorem pPath_func (f : Nat) (s : PSt) (fn : Fn) (h : peekTok s = .func fn) : pPath (f + 1) s = pFilterPath f s := by
+  simp only [pPath, h]
+
+theorem expectCh_ok (c : Char) (s : PSt) (h : peekTok s = .ch (chr c)) : expectCh c s = .ok (adv s) := by
+  simp only [expectCh, h, ↓reduceIte]; rfl
+
+theorem first_not_rparen (e : PE) (rest : List Tok) : (e.toks ++ rest).headD .eof ≠ .ch (chr ')') := by
+  obtain ⟨t, r, hr, hst'⟩ := toks_start e
+  rw [hr]
+  simp only [List.cons_append, List.headD_cons]
+  rcases hst' with ⟨x, rfl⟩ | ⟨l, rfl⟩ | rfl | rfl | ⟨fn, rfl⟩ <;> simp [chr]
+
+/-- one argument expression, followed by the token `t` (a comma or the closing parenthesis) -/
+theorem arg_step (a : PE) (ha : T a 0) (f : Nat) (s : PSt) (t : Tok) (rest : List Tok) (hf : B a + 12 ≤ f)
+    (ht : tk s = a.toks ++ (t :: rest)) (hs : stopAt 0 t) (hst : s.strict = false) :
+    pLevel f 0 s = .ok (done a s) ∧ peekTok (done a s) = t :=
+  ⟨ha f s (t :: rest) (by omega) ht hs hst, by rw [peek_done a s _ ht]; rfl⟩
+
+theorem pPrimary_func (f : Nat) (s : PSt) (fn : Fn) (h : peekTok s = .func fn) :
+    pPrimary (f + 1) s = (do
+      let s ← expectCh '(' (adv s)
+      let fin (s : PSt) (n : Nat) : PSt :=
+        let s := if n ≠ fn.sig.1.length then setErr s "wrong number of arguments" else s
+        emit s (.bltin fn)
+      if peekTok s = .ch (chr ')') then pure (fin (adv s) 0)
+      else do
+        let s ← pLevel f 0 s
+        if peekTok s = .ch (chr ')') then pure (fin (adv s) 1)
+        else do
+          let s ← expectCh ',' s
+          let s ← pLevel f 0 s
+          if peekTok s = .ch (chr ')') then pure (fin (adv s) 2)
+          else do
+            let s ← expectCh ',' s
+            let s ← pLevel f 0 s
+            let s ← expectCh ')' s
+            pure (fin s 3)) := by
+  simp only [pPrimary, h]
+
+theorem comma_ne_rparen : (Tok.ch (chr ',')) ≠ .ch (chr ')') := by simp [chr]
+
+theorem U_call0 (fn : Fn) (har : fn.sig.1.length = 0) : U (.call0 fn) := by
+  intro g s rest hg ht hs hst
+  have hp : peekTok s = .func fn := by rw [peek_tk, ht]; rfl
+  obtain ⟨g', rfl⟩ : ∃ g', g = g' + 1 + 1 + 1 + 1 := ⟨g - 4, by simp [B, PE.toks] at hg; omega⟩
+  have h1 : peekTok (adv s) = .ch (chr '(') := by rw [peek_tk, tk_adv, ht]; rfl
+  have h2 : peekTok (adv (adv s)) = .ch (chr ')') := by rw [peek_tk, tk_adv, tk_adv, ht]; rfl
+  have hprim : pPrimary (g' + 1) s = .ok (done (.call0 fn) s) := by
+    rw [pPrimary_func _ _ fn hp, expectCh_ok _ _ h1, ok_bind]
+    simp only [h2, ↓reduceIte, har, ne_eq, not_true_eq_false, done_call0]
+    rfl
+  have hd := peek_done (.call0 fn) s rest ht
+  exact unary_of_primary (g' + 1) s _ (by rw [hp]; simp) (pPath_func _ _ fn hp) hprim (by rw [hd]; exact hs)
+
+theorem U_call1 (fn : Fn) (a : PE) (har : fn.sig.1.length = 1) (ha : T a 0) : U (.call1 fn a) := by
+  intro g s rest hg ht hs hst
+  have hp : peekTok s = .func fn := by rw [peek_tk, ht]; rfl
+  obtain ⟨g', rfl⟩ : ∃ g', g = g' + 1 + 1 + 1 + 1 := ⟨g - 4, by simp [B, PE.toks] at hg; omega⟩
+  have h1 : peekTok (adv s) = .ch (chr '(') := by rw [peek_tk, tk_adv, ht]; rfl
+  have hta : tk (adv (adv s)) = a.toks ++ (.ch (chr ')') :: rest) := by rw [tk_adv, tk_adv, ht]; simp [PE.toks]
+  have h2 : peekTok (adv (adv s)) ≠ .ch (chr ')') := by rw [peek_tk, hta]; exact first_not_rparen a _
+  obtain ⟨pa, ka⟩ := arg_step a ha g' (adv (adv s)) _ rest (by simp [B, PE.toks] at hg ⊢; omega) hta (stopAt_rparen 0) hst
+  have hprim : pPrimary (g' + 1) s = .ok (done (.call1 fn a) s) := by
+    rw [pPrimary_func _ _ fn hp, expectCh_ok _ _ h1, ok_bind]
+    simp only [h2, ↓reduceIte, pa, ok_bind, ka, har, ne_eq, not_true_eq_false, done_call1]
+    rfl
+  have hd := peek_done (.call1 fn a) s rest ht
+  exact unary_of_primary (g' + 1) s _ (by rw [hp]; simp) (pPath_func _ _ fn hp) hprim (by rw [hd]; exact hs)
+
+theorem U_call2 (fn : Fn) (a b : PE) (har : fn.sig.1.length = 2) (ha : T a 0) (hb : T b 0) : U (.call2 fn a b) := by
+  intro g s rest hg ht hs hst
+  have hp : peekTok s = .func fn := by rw [peek_tk, ht]; rfl
+  obtain ⟨g', rfl⟩ : ∃ g', g = g' + 1 + 1 + 1 + 1 := ⟨g - 4, by simp [B, PE.toks] at hg; omega⟩
+  have h1 : peekTok (adv s) = .ch (chr '(') := by rw [peek_tk, tk_adv, ht]; rfl
+  have hta : tk (adv (adv s)) = a.toks ++ (.ch (chr ',') :: (b.toks ++ (.ch (chr ')') :: rest))) := by
+    rw [tk_adv, tk_adv, ht]; simp [PE.toks]
+  have h2 : peekTok (adv (adv s)) ≠ .ch (chr ')') := by rw [peek_tk, hta]; exact first_not_rparen a _
+  obtain ⟨pa, ka⟩ := arg_step a ha g' (adv (adv s)) _ _ (by simp [B, PE.toks] at hg ⊢; omega) hta (stopAt_comma 0) hst
+  have htb : tk (adv (done a (adv (adv s)))) = b.toks ++ (.ch (chr ')') :: rest) := by
+    rw [tk_adv, tk_done, hta]; simp
+  obtain ⟨pb, kb⟩ := arg_step b hb g' (adv (done a (adv (adv s)))) _ rest (by simp [B, PE.toks] at hg ⊢; omega) htb
+    (stopAt_rparen 0) hst
+  have hprim : pPrimary (g' + 1) s = .ok (done (.call2 fn a b) s) := by
+    rw [pPrimary_func _ _ fn hp, expectCh_ok _ _ h1, ok_bind]
+    simp only [h2, ↓reduceIte, pa, ok_bind, ka, comma_ne_rparen, expectCh_ok ',' _ ka, pb, kb, har, ne_eq,
+      not_true_eq_false, done_call2]
+    rfl
+  have hd := peek_done (.call2 fn a b) s rest ht
+  exact unary_of_primary (g' + 1) s _ (by rw [hp]; simp) (pPath_func _ _ fn hp) hprim (by rw [hd]; exact hs)
+
+theorem U_call3 (fn : Fn) (a b c : PE) (har : fn.sig.1.length = 3) (ha : T a 0) (hb : T b 0) (hc : T c 0) :
+    U (.call3 fn a b c) := by
+  intro g s rest hg ht hs hst
+  have hp : peekTok s = .func fn := by rw [peek_tk, ht]; rfl
+  obtain ⟨g', rfl⟩ : ∃ g', g = g' + 1 + 1 + 1 + 1 := ⟨g - 4, by simp [B, PE.toks] at hg; omega⟩
+  have h1 : peekTok (adv s) = .ch (chr '(') := by rw [peek_tk, tk_adv, ht]; rfl
+  have hta : tk (adv (adv s)) =
+      a.toks ++ (.ch (chr ',') :: (b.toks ++ (.ch (chr ',') :: (c.toks ++ (.ch (chr ')') :: rest))))) := by
+    rw [tk_adv, tk_adv, ht]; simp [PE.toks]
+  have h2 : peekTok (adv (adv s)) ≠ .ch (chr ')') := by rw [peek_tk, hta]; exact first_not_rparen a _
+  obtain ⟨pa, ka⟩ := arg_step a ha g' (adv (adv s)) _ _ (by simp [B, PE.toks] at hg ⊢; omega) hta (stopAt_comma 0) hst
+  have htb : tk (adv (done a (adv (adv s)))) = b.toks ++ (.ch (chr ',') :: (c.toks ++ (.ch (chr ')') :: rest))) := by
+    rw [tk_adv, tk_done, hta]; simp
+  obtain ⟨pb, kb⟩ := arg_step b hb g' (adv (done a (adv (adv s)))) _ _ (by simp [B, PE.toks] at hg ⊢; omega) htb
+    (stopAt_comma 0) hst
+  have htc : tk (adv (done b (adv (done a (adv (adv s)))))) = c.toks ++ (.ch (chr ')') :: rest) := by
+    rw [tk_adv, tk_done, htb]; simp
+  obtain ⟨pc, kc⟩ := arg_step c hc g' (adv (done b (adv (done a (adv (adv s)))))) _ rest
+    (by simp [B, PE.toks] at hg ⊢; omega) htc (stopAt_rparen 0) hst
+  have hprim : pPrimary (g' + 1) s = .ok (done (.call3 fn a b c) s) := by
+    rw [pPrimary_func _ _ fn hp, expectCh_ok _ _ h1, ok_bind]
+    simp only [h2, ↓reduceIte, pa, ok_bind, ka, comma_ne_rparen, expectCh_ok ',' _ ka, pb, kb, expectCh_ok ',' _ kb, pc,
+      expectCh_ok ')' _ kc, har, ne_eq, not_true_eq_false, done_call3]
+    rfl
+  have hd := peek_done (.call3 fn a b c) s rest ht
+  exact unary_of_primary (g' + 1) s _ (by rw [hp]; simp) (pPath_func _ _ fn hp) hprim (by rw [hd]; exact hs)
 
 theorem pLevelRest_op (g k : Nat) (s : PSt) (i : PI) (h : binOpAt k (peekTok s) = some i) :
     pLevelRest (g + 1) k s = (pLevel g (k + 1) (adv s) >>= fun s2 => pLevelRest g k (emit s2 i)) := by
@@ -374,6 +532,28 @@ theorem prec_main (e : PE) :
     refine ⟨fun lvl h hf => ?_, fun k h hf => ?_, hu⟩
     · exact ((ladder _ 6 (Nat.le_refl _) (T6_of_U _ (hu hf))) (6 - lvl) lvl (by omega)).1
     · exact ((ladder _ 6 (Nat.le_refl _) (T6_of_U _ (hu hf))) (6 - k) k (by omega)).2 (by omega)
+  | call0 fn =>
+    have hu : (PE.call0 fn).fits 6 → U (.call0 fn) := fun hf => U_call0 fn hf
+    refine ⟨fun lvl h hf => ?_, fun k h hf => ?_, hu⟩
+    · exact ((ladder _ 6 (Nat.le_refl _) (T6_of_U _ (hu hf))) (6 - lvl) lvl (by omega)).1
+    · exact ((ladder _ 6 (Nat.le_refl _) (T6_of_U _ (hu hf))) (6 - k) k (by omega)).2 (by omega)
+  | call1 fn a iha =>
+    have hu : (PE.call1 fn a).fits 6 → U (.call1 fn a) := fun hf => U_call1 fn a hf.1 (iha.1 0 (by omega) hf.2)
+    refine ⟨fun lvl h hf => ?_, fun k h hf => ?_, hu⟩
+    · exact ((ladder _ 6 (Nat.le_refl _) (T6_of_U _ (hu hf))) (6 - lvl) lvl (by omega)).1
+    · exact ((ladder _ 6 (Nat.le_refl _) (T6_of_U _ (hu hf))) (6 - k) k (by omega)).2 (by omega)
+  | call2 fn a b iha ihb =>
+    have hu : (PE.call2 fn a b).fits 6 → U (.call2 fn a b) := fun hf =>
+      U_call2 fn a b hf.1 (iha.1 0 (by omega) hf.2.1) (ihb.1 0 (by omega) hf.2.2)
+    refine ⟨fun lvl h hf => ?_, fun k h hf => ?_, hu⟩
+    · exact ((ladder _ 6 (Nat.le_refl _) (T6_of_U _ (hu hf))) (6 - lvl) lvl (by omega)).1
+    · exact ((ladder _ 6 (Nat.le_refl _) (T6_of_U _ (hu hf))) (6 - k) k (by omega)).2 (by omega)
+  | call3 fn a b c iha ihb ihc =>
+    have hu : (PE.call3 fn a b c).fits 6 → U (.call3 fn a b c) := fun hf =>
+      U_call3 fn a b c hf.1 (iha.1 0 (by omega) hf.2.1) (ihb.1 0 (by omega) hf.2.2.1) (ihc.1 0 (by omega) hf.2.2.2)
+    refine ⟨fun lvl h hf => ?_, fun k h hf => ?_, hu⟩
+    · exact ((ladder _ 6 (Nat.le_refl _) (T6_of_U _ (hu hf))) (6 - lvl) lvl (by omega)).1
+    · exact ((ladder _ 6 (Nat.le_refl _) (T6_of_U _ (hu hf))) (6 - k) k (by omega)).2 (by omega)
   | bin op a b iha ihb =>
     have hk : level op ≤ 5 := by cases op <;> simp [level]
     have hc : ∀ l, (PE.bin op a b).fits l → C (.bin op a b) (level op) := fun l hf =>
@@ -394,6 +574,7 @@ theorem prec_main (e : PE) :
 /-- the tree behind the written expression: parentheses removed -/
 inductive ET where
   | num (x : SF) | lit (s : List Rune) | neg (e : ET) | bin (op : BinOp) (a b : ET)
+  | call0 (fn : Fn) | call1 (fn : Fn) (a : ET) | call2 (fn : Fn) (a b : ET) | call3 (fn : Fn) (a b c : ET)
   deriving Repr, DecidableEq
 
 def PE.tree : PE → ET
@@ -402,12 +583,20 @@ def PE.tree : PE → ET
   | .paren e => e.tree
   | .neg e => .neg e.tree
   | .bin op a b => .bin op a.tree b.tree
+  | .call0 fn => .call0 fn
+  | .call1 fn a => .call1 fn a.tree
+  | .call2 fn a b => .call2 fn a.tree b.tree
+  | .call3 fn a b c => .call3 fn a.tree b.tree c.tree
 
 def ET.code : ET → List PI
   | .num x => [.num x]
   | .lit s => [.lit s]
   | .neg e => e.code ++ [.negate]
   | .bin op a b => a.code ++ b.code ++ [binPI op]
+  | .call0 fn => [.bltin fn]
+  | .call1 fn a => a.code ++ [.bltin fn]
+  | .call2 fn a b => a.code ++ b.code ++ [.bltin fn]
+  | .call3 fn a b c => a.code ++ b.code ++ c.code ++ [.bltin fn]
 
 theorem code_tree (e : PE) : e.code = e.tree.code := by
   induction e with
@@ -416,6 +605,10 @@ theorem code_tree (e : PE) : e.code = e.tree.code := by
   | paren e ih => simpa [PE.code, PE.tree] using ih
   | neg e ih => simp [PE.code, PE.tree, ET.code, ih]
   | bin op a b iha ihb => simp [PE.code, PE.tree, ET.code, iha, ihb]
+  | call0 fn => rfl
+  | call1 fn a iha => simp [PE.code, PE.tree, ET.code, iha]
+  | call2 fn a b iha ihb => simp [PE.code, PE.tree, ET.code, iha, ihb]
+  | call3 fn a b c iha ihb ihc => simp [PE.code, PE.tree, ET.code, iha, ihb, ihc]
 
 /-- `parseExprToks` on the tokens of a written expression (followed by the end-of-input token): the
     program is the postfix code of the tree, then `store` -/
